@@ -802,7 +802,14 @@ ESCAPES = [
     ("a/../../new-outside.txt", 1, "dotdot-create"),
     ("a/../../dir/..", 1, "trailing-dotdot"),
     ("a/sub/../../../dir/decoy2.txt", 1, "deep-dotdot"),
+    # not escaping by themselves (a run of slashes is one separator, so the stripped name is a relative path inside the
+    # tree), but one careless step away from an absolute name: only "nothing outside is touched" is asserted for these
+    ("a//{ABS}", 1, "double-slash-before-absolute"),
+    ("x/a//{ABS}", 2, "double-slash-before-absolute-p2"),
+    ("a///{ABS}", 1, "triple-slash-before-absolute"),
+    ("//{ABS}", 0, "leading-double-slash"),
 ]
+NOT_ESCAPING = ("double-slash-before-absolute", "double-slash-before-absolute-p2", "triple-slash-before-absolute")
 
 
 def c19_worker(item):
@@ -826,7 +833,8 @@ def c19_worker(item):
             with open(os.path.join(outer, p), "wb") as f:
                 f.write(d)
         work = os.path.join(outer, "ws")
-        name = esc_name.replace("{ABS}", os.path.join(outer, "abs.txt"))
+        abs_decoy = os.path.join(outer, "abs.txt")
+        name = esc_name.replace("/{ABS}", abs_decoy).replace("{ABS}", abs_decoy)
 
         def q(nm):
             b = nm.encode()
@@ -897,6 +905,11 @@ def c19_worker(item):
               and not any(p.startswith("/dev/") or p.startswith("/proc/") for p in e.paths)]
         if wc:
             res.viol(dict(sig0, **{"class": "write-class-syscall-outside", "call": wc[0].call}), "write-class calls outside the working tree: %s" % [e.raw[:160] for e in wc[:3]], work, argv, extra)
+            return res
+        if label in NOT_ESCAPING:
+            res.count("held-runs")
+            res.count("spelling:%s" % label)
+            res["nontrivial"].append(case_key(label, where, action, quoted, threads, pos, cli.ws_shape_key(ws)))
             return res
         if rr.rc != 1:
             res.viol(dict(sig0, **{"class": "escaping-name-accepted", "rc": str(rr.rc)}), "exit status %s for a series containing %r" % (rr.rc, text[:200]), work, argv, extra)
